@@ -369,6 +369,9 @@ pub fn run(args: &[String]) {
     if args[0] == "mid" {
         return run_mid(&args[1..]);
     }
+    if args[0] == "sizes" {
+        return run_sizes(&args[1..]);
+    }
     let kind = args[0].clone();
     let maxlen: usize = args[1].parse().unwrap();
     let cfgs: Vec<usize> = args[2].split(',').map(|c| config_by_name(c).expect("config")).collect();
@@ -668,4 +671,105 @@ fn lets_worker(cfgs: Vec<usize>) -> (u64, u64, Vec<String>, Vec<String>) {
         }
     }
     (n, nviol, viols, samples)
+}
+
+
+/// `c15 sizes`: (a) wide and deep programs — 1..=40 branches and 1..=40 steps, plain / with block captures / with let names and a
+/// handler — expand to a valid expression in every config (no size threshold panics); (b) stray punctuation that cannot start an
+/// expression directly after an operator that needs an operand (`a |> >> x`, `a => = x`, ..) is REJECTED, never accepted with the
+/// stray tokens dropped.
+pub fn run_sizes(args: &[String]) {
+    let cfgs: Vec<usize> = args[0].split(',').map(|c| config_by_name(c).expect("config")).collect();
+    let t0 = std::time::Instant::now();
+    let (mut n, mut nviol) = (0u64, 0u64);
+    let mut viols: Vec<String> = vec![];
+    let mut samples: Vec<String> = vec![];
+    let mut valid_inputs: Vec<String> = vec![];
+    for nb in 1..=40usize {
+        for form in 0..3 {
+            let parts: Vec<String> = (0..nb)
+                .map(|b| match form {
+                    0 => format!("x{} |> f{}", b, b),
+                    1 => format!("x{} |> {{ g{} }} ~=> {{ h{} }}", b, b, b),
+                    _ => format!("let n{} = x{} ~|> f{}", b, b, b),
+                })
+                .collect();
+            valid_inputs.push(parts.join(", "));
+        }
+    }
+    for d in 1..=40usize {
+        let mut one = String::from("x");
+        for k in 1..d {
+            one.push_str(&format!(" ~|> f{} ?? {{ q{} }}", k, k));
+        }
+        valid_inputs.push(one.clone());
+        valid_inputs.push(format!("{}, y ~=> g", one));
+        valid_inputs.push(format!("y, {}, z ~-> k", one));
+    }
+    for txt in valid_inputs.iter() {
+        for &cfg in &cfgs {
+            for handler in [false, true] {
+                let t = if handler { format!("{}, {} => hh", txt, if config(cfg).is_try { "map" } else { "then" }) } else { txt.clone() };
+                n += 1;
+                let bad = match expand_str(&t, cfg) {
+                    Outcome::Ok(_) => None,
+                    Outcome::InvalidOutput(o) => Some(format!("accepted but the output is not a syntactically valid expression: {}", &o[..o.len().min(200)])),
+                    Outcome::Panic(m) => Some(format!("internal panic instead of an expansion: {}", m)),
+                    o => Some(format!("structurally valid input was not expanded: {:?}", o.class())),
+                };
+                if let Some(b) = bad {
+                    nviol += 1;
+                    if viols.len() < 6 {
+                        viols.push(format!("{{\"input\":{},\"config\":{},\"what\":{},\"outcome\":\"\"}}", jesc(&t[..t.len().min(400)]), jesc(CONFIG_NAMES[cfg]), jesc(&b)));
+                    }
+                }
+            }
+        }
+    }
+    let stray = [">", ">>", ">=", ">>=", "=", "==", "+=", "/", "/=", "%", "%=", "^", "^="];
+    let follow = ["x", "(1, 2)", "{x}", "[x]", "= x", "> x"];
+    for (op, arity, wrapper, _) in OPS.iter() {
+        if *arity == 0 || *arity == 9 || *arity == 94 {
+            continue;
+        }
+        let mut heads = vec![format!("a {}", op), format!("a ~ {}", op)];
+        if *wrapper {
+            heads.push(format!("a {} >>> {}", op, op));
+        }
+        for h in heads.iter() {
+            for p in stray.iter() {
+                for f in follow.iter() {
+                    for ctx in 0..3 {
+                        let core = format!("{} {} {} |> f", h, p, f);
+                        let txt = match ctx {
+                            0 => core,
+                            1 => format!("b |> g, {}", core),
+                            _ => format!("{}, c", core),
+                        };
+                        for &cfg in &cfgs {
+                            n += 1;
+                            let bad = match expand_str(&txt, cfg) {
+                                Outcome::Ok(_) => Some("structurally invalid input (punctuation that cannot start an operand directly after an operator) was accepted silently".to_string()),
+                                Outcome::InvalidOutput(o) => Some(format!("accepted and the output is not a syntactically valid expression: {}", &o[..o.len().min(200)])),
+                                Outcome::Panic(m) => Some(format!("internal panic instead of a diagnostic: {}", m)),
+                                _ => None,
+                            };
+                            if let Some(b) = bad {
+                                nviol += 1;
+                                if viols.len() < 10 {
+                                    viols.push(format!("{{\"input\":{},\"config\":{},\"what\":{},\"outcome\":\"\"}}", jesc(&txt), jesc(CONFIG_NAMES[cfg]), jesc(&b)));
+                                }
+                            } else if samples.len() < 2 {
+                                samples.push(format!("{{\"input\":{},\"rejected\":true}}", jesc(&txt)));
+                            }
+                        }
+                    }
+                }
+            }
+        }
+    }
+    println!(
+        "{{\"mode\":\"c15sizes\",\"sequences\":{},\"expansions\":{},\"nviol\":{},\"viols\":[{}],\"classes\":[],\"samples\":[{}],\"secs\":{:.1}}}",
+        n, n, nviol, viols.join(","), samples.join(","), t0.elapsed().as_secs_f64()
+    );
 }
